@@ -462,12 +462,14 @@ def plan(tier, seed):
         specs = [{"kind": "files", "files": [f]} for f in corpus.SMALL[:6] + ["488d.pdb"]]
         specs += [{"kind": "synthetic", "examples": 200, "seed": seed * 1000 + k} for k in range(12)]
         specs += [{"kind": "cli", "examples": 40, "seed": seed * 1000 + 100 + k} for k in range(4)]
+        specs += [{"kind": "cli-fixed"}]
         specs += [{"kind": "assembly", "file": "6g90_1.cif", "copies": 8, "opts": [[True, True, False, False, True]]},
                   {"kind": "assembly", "file": "6g90_1.cif", "copies": 8, "opts": [[True, False, False, False, True]]}]
     else:
         specs = [{"kind": "files", "files": [f]} for f in corpus.all_files()]
         specs += [{"kind": "synthetic", "examples": 4000, "seed": seed * 1000 + k} for k in range(16)]
         specs += [{"kind": "cli", "examples": 800, "seed": seed * 1000 + 100 + k} for k in range(8)]
+        specs += [{"kind": "cli-fixed"}]
         big = [[io, ia, False, sn, mp] for io in (True, False) for ia in (True, False) for sn in (True, False) for mp in (True, False)]
         specs += [{"kind": "assembly", "file": "6g90_1.cif", "copies": 12, "opts": [o]} for o in big]
         specs += [{"kind": "assembly", "file": "4qln.cif", "copies": 20, "opts": [o]} for o in big[:4]]
@@ -486,6 +488,19 @@ def run_shard(spec) -> ShardResult:
             check_case(PROP_ID, oracle, case, res, to_json=to_json)
             nt, labs = classify(case)
             res.note_case({"file": f, **case.get("_info", {})}, nt, labs)
+    elif spec["kind"] == "cli-fixed":
+        # two residues with three planted clashes whose occupancy sums differ, in both orders of the sums, and a third
+        # residue of another chain clashing with the first: the printed maxima must be the maxima, not the first values
+        for occs in ([0.0, 0.3, 0.5, 0.7], [0.7, 0.5, 0.3, 0.0], [0.3, 0.7, 0.0, 0.5]):
+            n = len(NUC_NAMES)
+            case = {"kind": "cli", "residues": [{"chain": "A", "number": 1, "names": list(NUC_NAMES), "letter": "G", "resname": "G", "occ": occs},
+                                                {"chain": "A", "number": 2, "names": list(NUC_NAMES), "letter": "G", "resname": "G", "occ": occs},
+                                                {"chain": "B", "number": 1, "names": list(NUC_NAMES), "letter": "G", "resname": "G", "occ": occs[::-1]}],
+                    "plants": [[0, n, -0.3, 0, False], [1, n + 1, -0.3, 1, False], [2, n + 2, -0.3, 2, False], [3, 2 * n + 3, -0.3, 0, False], [4, 2 * n, -0.3, 1, False]],
+                    "cli_options": [[True, False, False, False, False], [True, False, False, False, True], [True, True, False, False, True], [False, False, False, False, True]]}
+            check_case(PROP_ID, oracle, case, res, to_json=to_json)
+            nt, labs = classify(case)
+            res.note_case(to_json(case), True, labs + ["constructed-several-clashes-per-residue-pair"], sample_cap=1)
     elif spec["kind"] == "assembly":
         if spec["file"] in corpus.all_files():
             case = {"kind": "assembly", "file": spec["file"], "copies": spec["copies"], "opts": spec["opts"]}
